@@ -37,6 +37,26 @@ func genC10(r *Rng, tier string) *Plan {
 			e.Name = e.Name + ".ca" // dots in the base name
 		}
 	}
+	dotted := false
+	for _, e := range g.Ents {
+		dotted = dotted || strings.Contains(e.Name, ".")
+	}
+	if len(g.Ents) >= 2 && !dotted && r.Chance(1, 10) {
+		// two configs whose names differ by a stacked suffix: x.yaml and x.json.yaml (alias "x.json",
+		// artifact x.json.pem) are two entities with two artifacts
+		a, b := g.Ents[0], g.Ents[1+r.Intn(len(g.Ents)-1)]
+		if a.Alias == "" && b.Alias == "" {
+			old := b.EffAlias()
+			b.Name, b.Dir = a.Name+"."+Pick(r, []string{"json", "yml", "yaml"}), a.Dir
+			b.Ext, b.Format = Pick(r, []string{"yaml", "yml"}), ""
+			for _, e := range g.Ents {
+				if e.Issuer == old {
+					e.Issuer = b.EffAlias()
+				}
+			}
+			g.P.Meta["stacked-suffix"] = "1"
+		}
+	}
 	// specs were edited after AddForest queued them: refresh the queued ops
 	for i := range g.P.Ops {
 		if g.P.Ops[i].K == "put-ent" {
